@@ -93,8 +93,9 @@ def detect_bursts_cycles(df_features, amp_fraction_threshold=0., amp_consistency
     is_burst = is_burst.to_numpy().copy()
 
     # Set the first and last cycles to not be part of a burst
-    is_burst[0] = False
-    is_burst[-1] = False
+    if len(is_burst) > 0:
+        is_burst[0] = False
+        is_burst[-1] = False
 
     df_features['is_burst'] = check_min_burst_cycles(is_burst, min_n_cycles=min_n_cycles)
 
